@@ -90,7 +90,7 @@ def mode_of(case):
 def run(ck):
     ck.rule = ("cases = configuration saves (tunnels grow / shrink, apex update, certificate renewal, first certificate; seeded sizes) executed by "
                "the real Config.writeFile in a child process under strace; evaluations = file-operation boundaries, each reconstructed as a disk "
-               "image and parsed with the real NewConfig; non-trivial = boundaries whose image differs from both the old and the final file bytes")
+               "image and parsed with the real NewConfig; non-trivial = boundaries strictly between the first and the last file operation of the save (the process would stop in the middle of it)")
     binary = ck.build("client")
     d = clientlib.scratch_dir(ck, "c45")
     try:
@@ -153,7 +153,7 @@ def run(ck):
                     real = "new"
                 else:
                     real, detail = "neither", lost(pr, c["old"], c["new"])
-            ck.count("%s:%d" % (c["name"], k), im not in (c["images"][0], c["images"][-1]))
+            ck.count("%s:%d" % (c["name"], k), 0 < k < len(c["images"]) - 1)
             if real != model[k] and not (real != "neither" and c["old"] == c["new"]):
                 disagree += 1
             if real == "neither":
